@@ -17,6 +17,7 @@
 //         G NAME V | g NAME V | s NAME V | a NAME V | t NAME TY
 //   top level only: u FILE | m MOD | l NAME V | S | R K
 #include "hcommon.hpp"
+#include "h_engine_types.hpp"
 #include <fstream>
 #include <map>
 #include <set>
@@ -24,7 +25,7 @@
 using namespace chaiscript;
 
 namespace {
-  template<int K> struct Ty { int v = K; };
+  using vf_c15::Ty;
 
   struct Sop { std::vector<std::string> w; };
 
